@@ -495,7 +495,33 @@ func decodeEv(e *Ev) (EvView, error) {
 
 // CompareEvent checks a (live or backfill) event against the current read-back of its key.
 // pfx is "event" or "backfill"; owner is the primary property (C08 / C09).
-func CompareEvent(pfx, owner string, e *Ev, o *Obs, wantJSON *bool, collID uint32, emptyBodyOK bool, rep Reporter, ctx string) {
+func CompareEvent(pfx, owner string, e *Ev, o *Obs, wantJSON *bool, collID uint32, keysOnly bool, rep Reporter, ctx string) {
+	if keysOnly {
+		// a KeysOnly feed carries no value and no xattrs; everything else must describe the document
+		if e.Value != nil {
+			rep([]string{owner}, pfx+".keysonly.value", fmt.Sprintf("%s: a KeysOnly feed received a value of %d bytes", ctx, len(e.Value)))
+		}
+		has := o.hasBody()
+		if (e.Op == sgbucket.FeedOpDeletion) == has {
+			rep(uniq(owner, "C05"), pfx+".opcode", fmt.Sprintf("%s (KeysOnly): opcode deletion=%v but the document %s a body", ctx, e.Op == sgbucket.FeedOpDeletion, ifs(has, "has", "has no")))
+		}
+		if e.Cas != o.rowCas() {
+			rep([]string{owner}, pfx+".cas", fmt.Sprintf("%s (KeysOnly): event CAS %d, stored CAS %d", ctx, e.Cas, o.rowCas()))
+		}
+		if o.ExpErr == "" && e.Exp != o.Exp {
+			rep(uniq(owner), pfx+".expiry", fmt.Sprintf("%s (KeysOnly): event expiry %d, stored %d", ctx, e.Exp, o.Exp))
+		}
+		if r, ok := o.rev(); ok && e.Rev != r {
+			rep(uniq(owner, "C17"), pfx+".rev", fmt.Sprintf("%s (KeysOnly): event RevNo %d, $document.revid %d", ctx, e.Rev, r))
+		}
+		if e.Coll != collID {
+			rep(uniq(owner, "C11"), pfx+".collection", fmt.Sprintf("%s (KeysOnly): event collection id %d, want %d", ctx, e.Coll, collID))
+		}
+		if wantJSON != nil && (e.DT&sgbucket.FeedDataTypeJSON != 0) != *wantJSON {
+			rep([]string{owner}, pfx+".datatype", fmt.Sprintf("%s (KeysOnly): event datatype JSON=%v, document JSON=%v", ctx, e.DT&sgbucket.FeedDataTypeJSON != 0, *wantJSON))
+		}
+		return
+	}
 	v, err := decodeEv(e)
 	if err != nil {
 		rep([]string{owner}, pfx+".decode", fmt.Sprintf("%s: cannot decode value with xattrs: %v", ctx, err))
@@ -512,7 +538,7 @@ func CompareEvent(pfx, owner string, e *Ev, o *Obs, wantJSON *bool, collID uint3
 	if !has {
 		wantBody = nil
 	}
-	if !bytes.Equal(v.Body, wantBody) && !(emptyBodyOK && len(v.Body) == 0 && len(wantBody) == 0) {
+	if !bytes.Equal(v.Body, wantBody) {
 		rep([]string{owner}, pfx+".body", fmt.Sprintf("%s: event body %q, stored %q", ctx, trunc(v.Body), trunc(wantBody)))
 	}
 	wantX := o.GX
